@@ -399,6 +399,10 @@ func (c *Checker) CheckSource(sourceName string, source string) (compiler.Compil
 	prevCompiler := c.compiler
 
 	c.Filename = sourceName
+	// the previous input left the checker in its last phase; hoisting and the
+	// type definition checks of this input have to run in the initial phase again
+	// (on-demand checks of referenced type definitions, detection of circular ones)
+	c.phase = initPhase
 	c.methodBodyChecks = nil
 	c.macroChecks = nil
 	c.signatureChecks = ds.NewOrderedMap[string, *[]signatureCheckEntry]()
